@@ -615,6 +615,30 @@ func c13Units(tier string) []Unit {
 				}})
 		}})
 	}
+	// a burst that fills the channel buffer with finished work, then an index that stays open while a higher one is
+	// begun and finished: marks must be counted in the order in which their calls returned, also beyond the buffer
+	for _, pairs := range []int{49, 50, 51} {
+		pairs := pairs
+		units = append(units, Unit{Name: fmt.Sprintf("overflow/burst-of-%d-pairs-then-open-index", pairs), Weight: 10, Run: func(c *Ctx) {
+			var a []wmStep
+			for i := 0; i < pairs; i++ {
+				a = append(a, wmStep{"B", 1}, wmStep{"D", 1})
+			}
+			a = append(a, wmStep{"B", 2}, wmStep{"B", 3}, wmStep{"D", 3})
+			s := [][]wmStep{a, {{"W", 1}}}
+			var obs string
+			bud := []int{0, 1}
+			if tier == "thorough" {
+				bud = []int{0, 1, 2}
+			}
+			ExploreSched(c, wmScenario(s, &obs), SchedOpts{Budgets: bud, MaxEnv: -1, MaxSteps: 50000,
+				Outcome: func() string { return obs },
+				NT:      func() string { return fmt.Sprintf("burst%d#%s", pairs, obs) },
+				Sample: func() any {
+					return map[string]any{"scripts": fmt.Sprintf("(B1 D1)x%d B2 B3 D3 | W1", pairs), "result": obs}
+				}})
+		}})
+	}
 	return units
 }
 
